@@ -54,3 +54,51 @@ pub fn c06_twin(plan: &Plan, out: &RunOut) -> Option<Violation> {
     }
     None
 }
+
+/// C08: the same plan without the injected datagrams. Inputs, states and connection events
+/// must be the same; forged traffic must not cost progress either.
+pub fn c08_twin(plan: &Plan, out: &RunOut) -> Option<Violation> {
+    if plan.injects.is_empty() || !matches!(plan.mode, Mode::Net) {
+        return None;
+    }
+    let mut t = plan.clone();
+    t.injects.clear();
+    t.scenario = format!("{}-twin-without-injections", plan.scenario);
+    let tout = run_plan(&t).ok()?;
+    if let Some(x) = tout.violations.first() {
+        return Some(v(&format!("c08.twin:{}", x.class), format!("the twin run without injections violates {}: {}", x.class, x.text), x.node, x.frame));
+    }
+    use crate::world::Ev;
+    let key = |e: &Ev| match e {
+        Ev::Synchronized { addr } => Some((0u8, *addr, 0i32)),
+        Ev::Disconnected { addr } => Some((1, *addr, 0)),
+        Ev::Desync { addr, frame, .. } => Some((2, *addr, *frame)),
+        _ => None,
+    };
+    for i in 0..out.nodes.len().min(tout.nodes.len()) {
+        let (a, b) = (&out.nodes[i], &tout.nodes[i]);
+        let common = a.sealed.min(b.sealed).max(0) as usize;
+        for f in 0..=common {
+            if f < a.hist.len() && f < b.hist.len() && a.hist[f] != b.hist[f] {
+                return Some(v("c08.injection_changed_inputs", format!("node {i}: state at sealed frame {f} is {:x} with the forged packets and {:x} without", a.hist[f], b.hist[f]), i, f as i32));
+            }
+        }
+        let mut ea: Vec<_> = a.events.iter().filter_map(|(_, e)| key(e)).collect();
+        let mut eb: Vec<_> = b.events.iter().filter_map(|(_, e)| key(e)).collect();
+        ea.sort();
+        eb.sort();
+        if ea != eb {
+            return Some(v("c08.injection_changed_connection_state", format!("node {i}: connection events with the forged packets {ea:?}, without {eb:?} (kind 0 Synchronized, 1 Disconnected, 2 DesyncDetected)"), i, a.final_frame));
+        }
+        let da: Vec<bool> = a.conn.iter().map(|c| c.0).collect();
+        let db: Vec<bool> = b.conn.iter().map(|c| c.0).collect();
+        if da != db {
+            return Some(v("c08.injection_changed_connection_state", format!("node {i}: disconnected flags with the forged packets {da:?}, without {db:?}"), i, a.final_frame));
+        }
+        let (fa, fb) = (a.final_frame as i64, b.final_frame as i64);
+        if fa < fb - 10 - fb / 5 {
+            return Some(v("c08.injection_cost_progress", format!("node {i} reached frame {fa} with the forged packets and frame {fb} without"), i, a.final_frame));
+        }
+    }
+    None
+}
